@@ -249,8 +249,9 @@ class Model(object):
         if not lst:
             self.cid2pids.pop(cid, None)
             self.objs.discard(cid)
-        for k in [k for k in self.meta if k[0] == pid]:
-            del self.meta[k]
+        if not op.get("nometa"):
+            for k in [k for k in self.meta if k[0] == pid]:
+                del self.meta[k]
         return Expect(ok="none")
 
     def op_div(self, op):
